@@ -1355,7 +1355,7 @@ def make_galaxy(rng, n=41):
     return img, (x0, y0, eps, pa)
 
 
-REPS_QUICK = ['f4', 'i2', 'i8', 'u2', 'be_f8', 'fortran', 'strided', 'ma_nomask', 'nddata', 'quantity']
+REPS_QUICK = ['f4', 'i2', 'i8', 'u2', 'be_f8', 'fortran', 'strided', 'ma_nomask', 'ma_false', 'nddata', 'quantity']
 REPS_ALL = ['f4', 'i2', 'i8', 'u2', 'i4', 'be_f8', 'be_f4', 'be_i4', 'be_i2', 'fortran', 'strided', 'negstride',
             'ma_nomask', 'ma_false', 'nddata', 'quantity']
 REP_CLASS = {'f4': 'float32', 'be_f4': 'float32', 'i2': 'integer', 'i8': 'integer', 'u2': 'integer',
@@ -1412,8 +1412,10 @@ def convert(a, rep):
 class Rep:
     """The scene in one representation."""
 
-    def __init__(self, rep, img, err, stars, gal, galgeom, scale=1.0):
+    def __init__(self, rep, img, err, stars, gal, galgeom, scale=1.0, mask=None, opts=None):
         self.rep = rep
+        self.mask = mask              # a few masked pixels (bool array), used by the non-default variants
+        self.opts = opts or {'method': 'subpixel', 'subpixels': 3}
         self.stars = stars
         self.galgeom = galgeom
         self.scale = scale            # a power of two: the scaled values stay exactly representable
@@ -1427,10 +1429,10 @@ class Rep:
             self.error = convert(err, rep)
             self.gal = convert(gal, rep)
 
-    def nd(self, with_error=True):
+    def nd(self, with_error=True, mask=None):
         """NDData container of the star scene (only for entry points documented to take one)."""
         unc = StdDevUncertainty(self.rawerr.copy()) if with_error else None
-        return NDData(self.raw.copy(), uncertainty=unc)
+        return NDData(self.raw.copy(), uncertainty=unc, mask=None if mask is None else mask.copy())
 
     def q(self, x):
         """a data-like scalar/array argument (threshold, background level) in the unit of the data"""
@@ -1481,21 +1483,23 @@ def _apers(S):
 
 
 def ep_aperture_photometry(S):
+    """method x subpixels (non-default) x mask, through every container"""
     from photutils.aperture import aperture_photometry
     out = {}
-    if S.rep == 'nddata':
-        t = aperture_photometry(S.nd(), _apers(S))
-        out.update(_tbl(t, prefix='exact:'))
-        return out
-    for method in ('exact', 'center', 'subpixel'):
-        t = aperture_photometry(S.data, _apers(S), error=S.error, method=method, subpixels=4)
-        out.update(_tbl(t, prefix=method + ':'))
+    o = S.opts
+    for method, sub, usemask in (('exact', 5, False), ('center', 5, False), ('subpixel', o['subpixels'], False),
+                                 (o['method'], o['subpixels'], True), ('subpixel', 2, True)):
+        mask = S.mask if usemask else None
+        key = f'{method}/{sub}/{"mask" if usemask else "nomask"}:'
         if S.rep == 'nddata':
-            break
+            t = aperture_photometry(S.nd(mask=mask), _apers(S), method=method, subpixels=sub)
+        else:
+            t = aperture_photometry(S.data, _apers(S), error=S.error, mask=mask, method=method, subpixels=sub)
+        out.update(_tbl(t, prefix=key))
     return out
 ep_aperture_photometry.units = {'aperture_sum': 'u'}
 ep_aperture_photometry.nddata = True
-ep_aperture_photometry.nddata_prefix = 'exact:'
+ep_aperture_photometry.nddata_prefix = ''
 
 
 APSTAT_COLS = ['xcentroid', 'ycentroid', 'sum', 'sum_err', 'sum_aper_area', 'center_aper_area', 'min', 'max',
@@ -1509,16 +1513,24 @@ def ep_aperture_stats(S):
     from photutils.aperture import ApertureStats
     out = {}
     aps = _apers(S)
-    for k, sc in enumerate((None, SigmaClip(3.0, maxiters=5))):
+    o = S.opts
+    for k, (sc, kw, usemask) in enumerate(((None, {}, False), (SigmaClip(3.0, maxiters=5), {}, False),
+                                           (None, {'sum_method': o['method'], 'subpixels': o['subpixels']}, True))):
         ap = aps[k]
+        mask = S.mask if usemask else None
         if S.rep == 'nddata':
-            st = ApertureStats(S.nd(), ap, sigma_clip=sc, local_bkg=np.full(len(ap), 3.0))
+            st = ApertureStats(S.nd(mask=mask), ap, sigma_clip=sc, local_bkg=np.full(len(ap), 3.0), **kw)
         else:
-            st = ApertureStats(S.data, ap, error=S.error, sigma_clip=sc, local_bkg=S.q(np.full(len(ap), 3.0)))
+            st = ApertureStats(S.data, ap, error=S.error, mask=mask, sigma_clip=sc,
+                               local_bkg=S.q(np.full(len(ap), 3.0)), **kw)
         for c in APSTAT_COLS:
             out[f'{k}:{c}'] = _try(lambda c=c: getattr(st, c))
+        if k == 2:      # methods / slices after the properties have been read
+            out['2:slice_sum'] = _try(lambda: st[1:3].sum)
+            out['2:slice_sum_err'] = _try(lambda: st[1:3].sum_err)
+            out['2:table_sum'] = _try(lambda: st.to_table(['sum', 'mean'])['sum'])
     return out
-ep_aperture_stats.units = {'sum': 'u', 'sum_err': 'u', 'min': 'u', 'max': 'u', 'mean': 'u', 'median': 'u', 'mode': 'u',
+ep_aperture_stats.units = {'slice_sum': 'u', 'slice_sum_err': 'u', 'table_sum': 'u', 'sum': 'u', 'sum_err': 'u', 'min': 'u', 'max': 'u', 'mean': 'u', 'median': 'u', 'mode': 'u',
                            'std': 'u', 'mad_std': 'u', 'var': 'u2', 'biweight_location': 'u',
                            'biweight_midvariance': 'u2'}
 ep_aperture_stats.nddata = 'nolocalbkg'
@@ -1589,6 +1601,27 @@ def ep_centroids(S):
         out[f'sources_{nm}_y'] = y
     x, y = centroid_sources(S.data, xs, ys, box_size=9, centroid_func=centroid_1dg, error=S.error)
     out['sources_1dg_err_x'], out['sources_1dg_err_y'] = x, y
+    # mask= / footprint= alongside the container, overlapping cutouts (every star twice, the second position
+    # a few pixels off), and the same call repeated on the same array
+    cmask = None if S.mask is None else S.mask[int(S.stars[0][1]) - 6:int(S.stars[0][1]) + 7,
+                                               int(S.stars[0][0]) - 6:int(S.stars[0][0]) + 7]
+    for nm, f in (('com', centroid_com), ('1dg', centroid_1dg), ('2dg', centroid_2dg)):
+        out[f'{nm}_mask'] = f(cut, mask=cmask)
+        out[f'{nm}_mask_again'] = f(cut, mask=cmask)
+        out[f'{nm}_after_mask'] = f(cut)
+    xs2 = xs + [x + 3 for x in xs]
+    ys2 = ys + [y + 2 for y in ys]
+    yy, xx = np.mgrid[-6:7, -6:7]
+    fp = (xx ** 2 + yy ** 2) <= 36
+    for nm, f in (('com', centroid_com), ('quadratic', centroid_quadratic), ('1dg', centroid_1dg),
+                  ('2dg', centroid_2dg)):
+        for rnd in ('a', 'b'):
+            x, y = centroid_sources(S.data, xs2, ys2, footprint=fp, centroid_func=f)
+            out[f'fp_{nm}_{rnd}_x'], out[f'fp_{nm}_{rnd}_y'] = x, y
+        x, y = centroid_sources(S.data, xs2, ys2, box_size=13, mask=S.mask, centroid_func=f)
+        out[f'boxmask_{nm}_x'], out[f'boxmask_{nm}_y'] = x, y
+    x, y = centroid_sources(S.data, xs, ys, box_size=9, centroid_func=centroid_2dg)
+    out['sources_2dg_after_x'], out['sources_2dg_after_y'] = x, y
     return out
 
 
@@ -1638,14 +1671,31 @@ def ep_source_catalog(S):
     ap, aperr = cat.circular_photometry(3.0)
     out['A:circ_flux'], out['A:circ_fluxerr'] = ap, aperr
     out['A:cutout0'] = cat.data[0]
+    # methods and slices after the properties have been read
+    kf, kfe = cat.kron_photometry((2.0, 1.0))
+    out['A:kron2_flux'], out['A:kron2_fluxerr'] = kf, kfe
+    out['A:fluxfrac_radius80'] = cat.fluxfrac_radius(0.8)
+    sub = cat[1:3] if len(cat) >= 3 else cat
+    out['A:slice_segment_flux'] = _try(lambda: sub.segment_flux)
+    out['A:slice_kron_flux'] = _try(lambda: sub.kron_flux)
+    out['A:slice_circ_flux'] = _try(lambda: sub.circular_photometry(2.5)[0])
+    out['A:table_kron_flux'] = _try(lambda: cat.to_table(['label', 'kron_flux', 'segment_fluxerr'])['kron_flux'])
     cat2 = SourceCatalog(S.data, segm)
     for c in ['xcentroid', 'segment_flux', 'kron_flux', 'fwhm', 'xcentroid_win', 'max_value']:
         out['B:' + c] = getattr(cat2, c)
+    # non-default options and a mask
+    cat3 = SourceCatalog(S.data, segm, error=S.error, mask=S.mask, apermask_method='mask',
+                         kron_params=(2.0, 1.2, 0.5), localbkg_width=6)
+    for c in ['xcentroid', 'ycentroid', 'segment_flux', 'segment_fluxerr', 'kron_flux', 'kron_fluxerr', 'area',
+              'local_background', 'semimajor_sigma', 'moments_central']:
+        out['C:' + c] = _try(lambda c=c: getattr(cat3, c))
     return out
 ep_source_catalog.units = {'min_value': 'u', 'max_value': 'u', 'segment_flux': 'u', 'segment_fluxerr': 'u',
                            'kron_flux': 'u', 'kron_fluxerr': 'u', 'local_background': 'u', 'background_sum': 'u',
                            'background_mean': 'u', 'background_centroid': 'u', 'circ_flux': 'u',
-                           'circ_fluxerr': 'u', 'cutout0': 'u'}
+                           'circ_fluxerr': 'u', 'cutout0': 'u', 'kron2_flux': 'u', 'kron2_fluxerr': 'u',
+                           'slice_segment_flux': 'u', 'slice_kron_flux': 'u', 'slice_circ_flux': 'u',
+                           'table_kron_flux': 'u'}
 
 
 def ep_finders(S):
@@ -1668,17 +1718,35 @@ def ep_profiles(S):
     from photutils.profiles import RadialProfile, CurveOfGrowth
     x0, y0 = S.stars[0][:2]
     edges = np.arange(0, 9)
-    rp = RadialProfile(S.data, (x0, y0), edges, error=S.error)
-    cog = CurveOfGrowth(S.data, (x0, y0), np.arange(1, 9), error=S.error)
-    out = {'rp:profile': rp.profile, 'rp:profile_error': rp.profile_error, 'rp:area': rp.area,
-           'rp:gaussian_fwhm': rp.gaussian_fwhm, 'cog:profile': cog.profile, 'cog:profile_error': cog.profile_error,
-           'cog:area': cog.area}
-    rp.normalize()
-    out['rp:normalized'] = rp.profile
-    cog.normalize()
-    out['cog:ee_radius'] = cog.calc_radius_at_ee(0.5)
+    o = S.opts
+    out = {}
+    for tag, kw in (('', {}), ('opt:', {'method': o['method'], 'subpixels': o['subpixels'], 'mask': S.mask})):
+        rp = RadialProfile(S.data, (x0, y0), edges, error=S.error, **kw)
+        cog = CurveOfGrowth(S.data, (x0, y0), np.arange(1, 9), error=S.error, **kw)
+        out.update({tag + 'rp:profile': rp.profile, tag + 'rp:profile_error': rp.profile_error,
+                    tag + 'rp:area': rp.area, tag + 'rp:gaussian_fwhm': rp.gaussian_fwhm,
+                    tag + 'cog:profile': cog.profile, tag + 'cog:profile_error': cog.profile_error,
+                    tag + 'cog:area': cog.area})
+        # multi-step sequences on the same objects: units and values after every step
+        rp.normalize()
+        out[tag + 'rp:normalized'] = rp.profile
+        out[tag + 'rp:normalized_error'] = rp.profile_error
+        rp.unnormalize()
+        out[tag + 'rp:unnormalized'] = rp.profile
+        out[tag + 'rp:unnormalized_error'] = rp.profile_error
+        rp.normalize(method='sum')
+        rp.normalize(method='max')
+        rp.unnormalize()
+        out[tag + 'rp:unnormalized2'] = rp.profile
+        cog.normalize()
+        out[tag + 'cog:normalized'] = cog.profile
+        out[tag + 'cog:ee_radius'] = cog.calc_radius_at_ee(0.5)
+        cog.unnormalize()
+        out[tag + 'cog:unnormalized'] = cog.profile
+        out[tag + 'cog:unnormalized_error'] = cog.profile_error
     return out
-ep_profiles.units = {'rp:profile': 'u', 'rp:profile_error': 'u', 'cog:profile': 'u', 'cog:profile_error': 'u'}
+ep_profiles.units = {'profile': 'u', 'profile_error': 'u', 'unnormalized': 'u', 'unnormalized_error': 'u',
+                     'unnormalized2': 'u'}
 
 
 def ep_psf_photometry(S):
@@ -1867,6 +1935,10 @@ def compare(ref, got, tol_kind, floor=1.0):
         d = np.abs(a - b)
         ok = np.all(d <= 1e-9 * np.maximum(np.abs(a), 1e-3 * scale))
         return None if ok else f'max abs diff {float(d.max()):.3g} (scale {scale:.3g})'
+    if tol_kind == 'tight':
+        d = np.abs(a - b)
+        ok = np.all(d <= 1e-12 * np.maximum(np.abs(a), 1e-3 * scale))
+        return None if ok else f'max abs diff {float(d.max()):.3g} (scale {scale:.3g}, float64-exact expected)'
     if tol_kind == 'f32':
         d = np.abs(a - b)
         ok = np.all(d <= 2e-4 * np.abs(a) + 2e-5 * scale)
@@ -1984,22 +2056,41 @@ def run_entry(name, S):
 def new_scene(rng):
     img, err, stars = make_scene(rng)
     gal, gg = make_galaxy(rng)
-    return dict(img=img, err=err, stars=stars, gal=gal, galgeom=gg)
+    mask = np.zeros(img.shape, bool)
+    for (x0, y0, _, _) in stars[:3]:              # a few masked pixels next to (not on) the stars
+        mask[int(y0) + rng.choice([-2, 2]), int(x0) + rng.choice([-1, 1, 2])] = True
+    opts = {'method': rng.choice(['exact', 'center', 'subpixel', 'subpixel']), 'subpixels': rng.choice([2, 3, 7])}
+    return dict(img=img, err=err, stars=stars, gal=gal, galgeom=gg, mask=mask, opts=opts)
+
+
+def bright(sc):
+    """the same scene with pixel values x256 (still exact float32 integers < 2**24, sums well above 2**24)"""
+    b = dict(sc)
+    b['img'], b['err'], b['gal'] = sc['img'] * 256, sc['err'] * 16, sc['gal'] * 256
+    return b
 
 
 def scene_json(sc):
     return {'img': sc['img'].astype(int).tolist(), 'err': sc['err'].astype(int).tolist(),
             'stars': [list(map(float, s)) for s in sc['stars']], 'gal': sc['gal'].astype(int).tolist(),
-            'galgeom': list(map(float, sc['galgeom']))}
+            'galgeom': list(map(float, sc['galgeom'])), 'opts': sc.get('opts'),
+            'mask': None if sc.get('mask') is None else np.argwhere(sc['mask']).tolist()}
 
 
 def scene_from_json(j):
-    return dict(img=np.array(j['img'], float), err=np.array(j['err'], float),
-                stars=[tuple(s) for s in j['stars']], gal=np.array(j['gal'], float), galgeom=tuple(j['galgeom']))
+    sc = dict(img=np.array(j['img'], float), err=np.array(j['err'], float),
+              stars=[tuple(s) for s in j['stars']], gal=np.array(j['gal'], float), galgeom=tuple(j['galgeom']),
+              opts=j.get('opts'))
+    if j.get('mask') is not None:
+        sc['mask'] = np.zeros(sc['img'].shape, bool)
+        for y, x in j['mask']:
+            sc['mask'][y, x] = True
+    return sc
 
 
 def mk_rep(rep, sc, scale=1.0):
-    return Rep(rep, sc['img'], sc['err'], sc['stars'], sc['gal'], sc['galgeom'], scale)
+    return Rep(rep, sc['img'], sc['err'], sc['stars'], sc['gal'], sc['galgeom'], scale, sc.get('mask'),
+               sc.get('opts'))
 
 
 def reps_for(name, sc, reps):
@@ -2014,6 +2105,19 @@ def reps_for(name, sc, reps):
     return out
 
 
+# The scenes are integer valued, so the float32 arrays hold exactly the float64 numbers: an implementation
+# that accumulates in float64 gives exactly the float64 result.  For these entry points photutils itself does the
+# summing, and float32 input must agree with float64 input to 1e-12 (not merely to float32 precision).  The others
+# hand the float32 array to numpy/scipy/astropy/bottleneck reductions, fitters or filters that legitimately work in
+# float32 (Background2D keeps float32 on purpose): 2e-4 there.
+FLOAT32_EXACT = {'aperture_photometry', 'ApertureStats', 'SourceCatalog', 'profiles', 'centroids', 'calc_total_error',
+                 'morphology', 'LocalBackground'}
+# observed on /repo, same class as the seeded float32 accumulation but present in the pinned tree (reported, not
+# failed): SourceCatalog.background_mean/background_sum reduce the caller's float32 background values in float32
+# (2e-8 relative); photutils.morphology.gini() sorts and sums float32 data in float32 (8e-8)
+FLOAT32_EXACT_EXCEPT = {'A:background_mean', 'A:background_sum', 'gini'}
+
+
 def compare_entry(name, rep, ref, got):
     """-> list of (kind, output, message); kind in differs / raises / unit / missing"""
     f = ENTRY_POINTS[name]
@@ -2021,6 +2125,7 @@ def compare_entry(name, rep, ref, got):
     tol = TOL.get(cls, 'ulp')
     if cls == 'integer' and getattr(f, 'int_rounding', False):
         tol = 'intround'                       # Background2D's documented integer output
+    tight = cls == 'float32' and name in FLOAT32_EXACT
     probs = []
     exact = 0
     for k, r in ref.items():
@@ -2041,7 +2146,7 @@ def compare_entry(name, rep, ref, got):
             continue
         if cls == 'float32' and k in getattr(f, 'ill_conditioned_in_float32', ()):
             continue          # fits of residual-noise detections: float32 rounding is amplified without bound
-        m = compare(r, g, tol)
+        m = compare(r, g, 'tight' if tight and k not in FLOAT32_EXACT_EXCEPT else tol)
         if m:
             probs.append(('differs', k, m))
         elif compare(r, g, 'exact') is None:
@@ -2453,6 +2558,10 @@ def run(ctx):
             product_one(ctx, sc, name, reps, found)
         run_mixed(ctx, sc) if k < 2 else None
     check_annotations(ctx, scenes[0], [r for r in reps if r != 'nddata'])
+    # ---- float32 exactness on a bright scene (pixel values < 2**24, sums far above 2**24)
+    for sc in scenes[:1 if quick else 3]:
+        for name in sorted(FLOAT32_EXACT):
+            product_one(ctx, bright(sc), name, ['f4'] if quick else ['f4', 'be_f4'], found)
     # ---- float32 axis: the scene times 2**k; container axis: NDData unit combinations
     exps = [-100, 100] if quick else [-100, -64, -30, 30, 64, 100]
     for k, sc in enumerate(scenes[:1 if quick else 3]):
